@@ -5,6 +5,8 @@ import (
 	"go/constant"
 	"go/token"
 	"go/types"
+	"regexp"
+	"strconv"
 	"strings"
 
 	"golang.org/x/tools/go/ssa"
@@ -373,4 +375,84 @@ func CopyOf(a, root *ssa.Alloc) bool {
 		a = next
 	}
 	return false
+}
+
+// ---- helpers a rule is decided across (C13) ---------------------------------------
+
+var paramTokenRE = regexp.MustCompile(`\bp([0-9]+)\b`)
+
+// SubstParams rewrites an origin term of a callee's frame into the caller's frame: every
+// parameter token pK becomes the origin term of argument K of the call (the receiver is
+// argument 0).  Terms with elided sub-terms (~hhhh) or unresolved parts cannot be
+// translated (ok = false).
+func (r *Run) SubstParams(term string, call ssa.CallInstruction) (string, bool) {
+	if strings.Contains(term, "~") || strings.Contains(term, "opaque") {
+		return term, false
+	}
+	args := CallArgs(call)
+	ok := true
+	out := paramTokenRE.ReplaceAllStringFunc(term, func(m string) string {
+		k, err := strconv.Atoi(m[1:])
+		if err != nil || k >= len(args) {
+			ok = false
+			return m
+		}
+		a := r.D.D(args[k])
+		if strings.Contains(a, "~") || strings.Contains(a, "opaque") {
+			ok = false
+		}
+		return a
+	})
+	return out, ok
+}
+
+// PureOfArgs: fn computes its results from its arguments only — it calls nothing but
+// builtins and static functions from outside the module, writes nothing but its own
+// locals, and neither spawns, defers, sends nor selects.  (What such a helper returns can
+// be decided inside it and carried to the call site; it cannot touch the caller's state.)
+func PureOfArgs(fn *ssa.Function) (bool, string) {
+	if fn == nil || len(fn.Blocks) == 0 {
+		return false, "no body"
+	}
+	why := ""
+	eachInstr(fn, func(in ssa.Instruction) {
+		if why != "" {
+			return
+		}
+		switch x := in.(type) {
+		case *ssa.Call:
+			c := x.Common()
+			if _, isBuiltin := c.Value.(*ssa.Builtin); isBuiltin {
+				return
+			}
+			f := c.StaticCallee()
+			if f == nil {
+				why = "dynamic or interface call " + CalleeOf(x)
+				return
+			}
+			if f.Pkg != nil && f.Pkg.Pkg != nil && strings.HasPrefix(f.Pkg.Pkg.Path(), ModPath) {
+				why = "calls " + FuncName(f) + " of the module"
+			}
+		case *ssa.Store:
+			if addrBase(x.Addr) == nil {
+				why = "writes outside its own locals: " + x.String()
+			}
+		case *ssa.Go, *ssa.Defer, *ssa.Send, *ssa.Select, *ssa.MapUpdate, *ssa.Panic, *ssa.RunDefers:
+			why = "has an effect: " + in.String()
+		}
+	})
+	return why == "", why
+}
+
+// ResultIndex: v is result i of a call (Extract) or the single result (i = 0).
+func ResultIndex(v ssa.Value) (ssa.CallInstruction, int) {
+	switch x := v.(type) {
+	case *ssa.Call:
+		return x, 0
+	case *ssa.Extract:
+		if c, ok := x.Tuple.(*ssa.Call); ok {
+			return c, x.Index
+		}
+	}
+	return nil, 0
 }
